@@ -6,6 +6,7 @@ package main
 import (
 	"fmt"
 	"math/big"
+	"sort"
 	"strings"
 )
 
@@ -217,7 +218,34 @@ type Script struct {
 	lines  []string
 	decls  map[string]string // name -> sort (constants) ; for dedup
 	nfresh int
+	// Path-local scripts: line ranges that belong to a fully explored sub-path.
+	// A query keeps only the ranges its own position lies in (its ancestors),
+	// plus all declarations and all lines marked global (facts about terms that
+	// are valid everywhere and asserted only once).
+	hidden [][2]int
+	global map[int]bool
+	// hideIn: range r is hidden for positions inside range o (blocks that cannot
+	// reach the start of a path explored on its own)
+	hideIn []hideRule
+	// proved: lines that assume a goal after its obligation was recorded
+	proved map[int]bool
 }
+
+// assumeProved: a goal that later code may rely on because it is proved (or
+// reported) by its own obligation. A query that decides several goals at once
+// must not see these lines for its own members.
+func (s *Script) assumeProved(t T) {
+	if t == "true" {
+		return
+	}
+	if s.proved == nil {
+		s.proved = map[int]bool{}
+	}
+	s.proved[len(s.lines)] = true
+	s.raw("(assert " + t + ")")
+}
+
+type hideRule struct{ r, o [2]int }
 
 func newScript() *Script {
 	return &Script{decls: map[string]string{}}
@@ -267,6 +295,77 @@ func (s *Script) assume(t T) {
 		return
 	}
 	s.raw("(assert " + t + ")")
+}
+
+// assumeG: a fact that is asserted once and must be visible to every query.
+func (s *Script) assumeG(t T) {
+	if t == "true" {
+		return
+	}
+	if s.global == nil {
+		s.global = map[int]bool{}
+	}
+	s.global[len(s.lines)] = true
+	s.raw("(assert " + t + ")")
+}
+
+// hideFor: the hidden ranges that do not contain position pos.
+func (s *Script) hideFor(pos int) [][2]int {
+	var out [][2]int
+	for _, r := range s.hidden {
+		if !(r[0] <= pos && pos < r[1]) {
+			out = append(out, r)
+		}
+	}
+	for _, h := range s.hideIn {
+		if h.o[0] <= pos && pos < h.o[1] {
+			out = append(out, h.r)
+		}
+	}
+	return out
+}
+
+// prefixHiding renders lines [0,n) without the given ranges (declarations and
+// global facts inside them are kept).
+func (s *Script) prefixHiding(n int, hide [][2]int, noProvedFrom int) string {
+	if len(hide) == 0 && noProvedFrom < 0 {
+		return s.prefix(n)
+	}
+	var b strings.Builder
+	hi := 0
+	// ranges are appended in closing order; sort a copy by start
+	hs := append([][2]int(nil), hide...)
+	sort.Slice(hs, func(i, j int) bool { return hs[i][0] < hs[j][0] })
+	// merge nested/overlapping ranges
+	var merged [][2]int
+	for _, r := range hs {
+		if len(merged) > 0 && r[0] < merged[len(merged)-1][1] {
+			if r[1] > merged[len(merged)-1][1] {
+				merged[len(merged)-1][1] = r[1]
+			}
+			continue
+		}
+		merged = append(merged, r)
+	}
+	for i := 0; i < n; i++ {
+		if noProvedFrom >= 0 && i >= noProvedFrom && s.proved[i] {
+			continue
+		}
+		for hi < len(merged) && merged[hi][1] <= i {
+			hi++
+		}
+		if hi < len(merged) && merged[hi][0] <= i && i < merged[hi][1] {
+			l := s.lines[i]
+			if strings.HasPrefix(l, "(declare-") || s.global[i] {
+				b.WriteString(l)
+				b.WriteByte('\n')
+			}
+			continue
+		}
+		b.WriteString(s.lines[i])
+		b.WriteByte('\n')
+	}
+	return b.String()
 }
 
 func (s *Script) mark() int { return len(s.lines) }
